@@ -93,6 +93,9 @@ def check_config(cfg, w, rep):
                                 why = "the digest is fed %s, whose length is not the amount this write accepted" % term_str(dterm)[:60]
                         elif teq(dterm, sdata) and not ok:
                             why = "the digest is fed the whole chunk although `%s` may accept only a prefix of it" % norm_callee(st.callee.path)
+                    elif kind == "whole":
+                        why = ("`%s` on the staging file is not resumable: when it fails part-way, the bytes already accepted stay in the file "
+                               "but are neither digested nor reported, so a caller that retries produces a file that does not match its address" % norm_callee(st.callee.path))
                     elif kind == "dead-stub":
                         if teq(dterm, sdata):
                             ok = True
@@ -325,8 +328,12 @@ def check_whole_sink(cfg, w, rep, g):
             ok = False
         if copies and not prog.cfg(body).dominates(copies[0][0].i, rd.blk):
             ok = False
+    fails = [rd for rd in ret_defs(prog, body) if rd.cls == "failure"]
+    for rd in fails:
+        if copies and prog.cfg(body).can_reach(copies[0][0].i, rd.blk):
+            ok = False
     if ok and rets:
-        rep.ob(cfg, "a-whole-sink", key, "`%s` returns Ok(buf.len()) only after copying the whole buf into the mapping" % short(g.path))
+        rep.ob(cfg, "a-whole-sink", key, "`%s` returns Ok(buf.len()) only after copying the whole buf into the mapping, and fails only before touching it" % short(g.path))
     else:
         rep.violation("a-whole:%s" % key, "`%s` is treated as an all-or-error sink but can report success without having copied its whole buffer" % short(g.path),
                       loc=body.loc(), config=cfg, rule="a-whole-sink")
